@@ -61,9 +61,17 @@ class Endpoint:
             self.location = b""
             self.use_cert = "good"
             self.keep_alive = True
-        self._sni_name = None
+        self._tl = threading.local()  # (the SNI callback runs in the thread that performs the handshake)
         self.thread = threading.Thread(target=self._loop, daemon=True)
         self.thread.start()
+
+    @property
+    def _sni_name(self):
+        return getattr(self._tl, "sni", None)
+
+    @_sni_name.setter
+    def _sni_name(self, v):
+        self._tl.sni = v
 
     def _sni(self, sslobj, name, ctx):
         self._sni_name = name
@@ -77,20 +85,24 @@ class Endpoint:
                 return
             with self.lock:
                 self.accepted += 1
-            rec = {"first": b"", "request": b"", "tls_ok": False, "sni": None, "error": None}
+            # one thread per connection: a client that dawdles does not keep the next one waiting
+            threading.Thread(target=self._serve, args=(conn,), daemon=True).start()
+
+    def _serve(self, conn):
+        rec = {"first": b"", "request": b"", "tls_ok": False, "sni": None, "error": None}
+        try:
+            conn.settimeout(3.0)
+            self._handle(conn, rec)
+        except (OSError, ssl.SSLError) as e:
+            rec["error"] = repr(e)
+        finally:
             try:
-                conn.settimeout(3.0)
-                self._handle(conn, rec)
-            except (OSError, ssl.SSLError) as e:
-                rec["error"] = repr(e)
-            finally:
-                try:
-                    conn.close()
-                except OSError:
-                    pass
-                with self.lock:
-                    self.records.append(rec)
-                    self.finished += 1
+                conn.close()
+            except OSError:
+                pass
+            with self.lock:
+                self.records.append(rec)
+                self.finished += 1
 
     def _peek(self, conn, rec):
         deadline = time.time() + 3.0
